@@ -67,23 +67,61 @@ def load_repo(repo_root: str = "/repo"):
     seams.SOLVER.rebind_namespace(reservoir)
     seams.CRASH.configure(os.path.realpath(reservoir.__file__))
 
-    class NS:
-        pass
-
-    ns = NS()
-    ns.repo_root = repo_root
-    ns.reservoir = reservoir
-    ns.flowproperties = flowproperties
-    ns.IdealReservoir = reservoir.IdealReservoir
-    ns.SinglePhaseReservoir = reservoir.SinglePhaseReservoir
-    ns.TwoPhaseReservoir = reservoir.TwoPhaseReservoir
-    ns.MultiPhaseReservoir = reservoir.MultiPhaseReservoir
-    ns.FlowProperties = flowproperties.FlowProperties
-    ns.FlowPropertiesSimple = flowproperties.FlowPropertiesSimple
-    ns.FlowPropertiesTwoPhase = flowproperties.FlowPropertiesTwoPhase
+    ns = Lib(repo_root, reservoir, flowproperties)
+    ns._code = {}
+    for m in (flowproperties, reservoir):
+        with open(m.__file__) as f:
+            ns._code[m.__name__] = (compile(f.read(), m.__file__, "exec"), m.__file__, m.__package__)
     _LOADED["repo_root"] = repo_root
     _LOADED["ns"] = ns
     return ns
+
+
+class Lib:
+    """The library classes of one *instance* of the repo's modules.
+
+    ``fresh()`` re-executes ``flowproperties.py`` and ``reservoir.py`` into new module
+    objects, so module-level and class-level state (memo dicts, mutable defaults, class
+    attributes) starts cold.  Scenarios run their objects in one fresh instance and build
+    every reference in another: state that leaks across objects or calls through the module
+    is then visible to the fresh-object oracle, and a scenario never depends on what the
+    worker process executed before it.
+    """
+
+    def __init__(self, repo_root, reservoir, flowproperties, parent=None):
+        self.repo_root = repo_root
+        self.reservoir = reservoir
+        self.flowproperties = flowproperties
+        self._parent = parent
+        for name in ("IdealReservoir", "SinglePhaseReservoir", "TwoPhaseReservoir", "MultiPhaseReservoir"):
+            setattr(self, name, getattr(reservoir, name))
+        for name in ("FlowProperties", "FlowPropertiesSimple", "FlowPropertiesTwoPhase"):
+            setattr(self, name, getattr(flowproperties, name))
+
+    def fresh(self):
+        import types
+        import warnings
+
+        root = self._parent or self
+        mods = {}
+        fname = "bluebonnet.flow.flowproperties"
+        rname = "bluebonnet.flow.reservoir"
+        saved = sys.modules.get(fname)
+        try:
+            with warnings.catch_warnings():
+                warnings.simplefilter("ignore")
+                for name in (fname, rname):
+                    code, file, pkg = root._code[name]
+                    m = types.ModuleType(name)
+                    m.__file__ = file
+                    m.__package__ = pkg
+                    exec(code, m.__dict__)  # noqa: S102  (the repo's own source, deliberately re-instantiated)
+                    mods[name] = m
+                    if name == fname:
+                        sys.modules[fname] = m  # reservoir.py imports FlowProperties from it
+        finally:
+            sys.modules[fname] = saved
+        return Lib(self.repo_root, mods[rname], mods[fname], parent=root)
 
 
 class HarnessError(Exception):
